@@ -544,12 +544,19 @@ Definition ogdoc_eqb (a b : option gdoc) := match a, b with Some x, Some y => le
 (* per case: 0 ok, 1 model text differs from export_kv2(flat=True), 2 model parse of that text differs from parse_kv2,
    3 the document is outside doc_ok (generator bug), 4 the linked graph (fix-up pass) differs from the parsed object graph,
    5 model parse of the re-formatted text (other line ends / indentation, comments, trailing commas) differs from parse_kv2 *)
-Definition chk2 (c : kdoc * str * option kdoc * option gdoc * str * option kdoc) : N := let '(d, text, back, gback, text2, back2) := c in
+(* 6: graph level, flat layout: nest_doc of the exported object graph with the root rule read from the source (flat = every
+   element a root) does not render to the exported text, or it is not the flat document of the graph *)
+Definition flat_graph_ok (g : gdoc) (text : str) : bool :=
+  match nest_doc g (is_root gen_fold gen_vtnames gen_rootcfg true g) false with
+  | Some dn => str_eqb (rendern_doc gen_tables dn) text && leqb kelem_eqb (unnest dn) (flatten g)
+  | None => false
+  end.
+Definition chk2 (c : kdoc * str * option kdoc * option gdoc * str * option kdoc * gdoc) : N := let '(d, text, back, gback, text2, back2, g) := c in
   if negb (doc_ok gen_tables gen_vtnames d) then 3
   else if str_eqb (gen_render_doc d) text
        then (if okdoc_eqb (gen_parse_text text) back
              then (if ogdoc_eqb (match gen_parse_text text with Some x => link x | None => None end) gback
-                   then (if okdoc_eqb (gen_parse_text text2) back2 then 0 else 5) else 4)
+                   then (if okdoc_eqb (gen_parse_text text2) back2 then (if flat_graph_ok g text then 0 else 6) else 5) else 4)
              else 2)
        else 1.
 Fixpoint bad_idx {A} (f : A -> N) (n : N) (l : list A) : list N := match l with [] => [] | x :: r => (if f x =? 0 then [] else [n * 10 + f x]) ++ bad_idx f (n + 1) r end.
@@ -733,7 +740,7 @@ def corr_kv2(ck: Ck) -> None:
         except Exception:
             back2 = 'None'
             ck.count('corr_kv2_impl_reformat_parse_error')
-        cases.append((spec, uni, f'({coq_kdoc(d)}, {_cps(text)}, {back}, {gback}, {_cps(text2)}, {back2})'))
+        cases.append((spec, uni, f'({coq_kdoc(d)}, {_cps(text)}, {back}, {gback}, {_cps(text2)}, {back2}, {coq_gdoc(gdoc_of(elems[0]))})'))
         ck.count('corr_kv2_cases')
         ck.hist('corr_kv2_text_chars', len(text) // 500 * 500)
         if len(d) > 1 or d[0][3]:
@@ -741,7 +748,7 @@ def corr_kv2(ck: Ck) -> None:
     U.disarm()
     bad = []
     for lo in range(0, len(cases), 45):
-        vals = ck.coq_eval(IMPORTS_KV2, [f'bad_idx chk2 0 {coq_list(x[2] for x in cases[lo:lo + 45])}'], name='kv2', preamble=PRE_KV2)
+        vals = ck.coq_eval(IMPORTS_KV2 + ['SV.Fmt.DmxKv2Nested', 'SV.Fmt.DmxKv2Graph'], [f'bad_idx chk2 0 {coq_list(x[2] for x in cases[lo:lo + 45])}'], name='kv2', preamble=PRE_KV2)
         if vals is None:
             ck.obligation('correspondence:kv2-flat-text', False, 'model could not be evaluated')
             ck.tie_broken.append('correspondence KV2 flat text: model evaluation failed')
@@ -749,7 +756,8 @@ def corr_kv2(ck: Ck) -> None:
         bad += [(lo + v // 10, v % 10) for v in parse_coq_N_list(vals[0])]
     ck.obligation('correspondence:kv2-flat-text', not bad,
                   f'{len(cases)} documents: Fmt/DmxKv2.v render_doc vs export_kv2(flat=True) text (exact), parse_text of that text vs '
-                  f'the string-level document of Element.parse, link (fix-up pass) vs the parsed object graph: {len(bad)} disagreements')
+                  f'the string-level document of Element.parse, link (fix-up pass) vs the parsed object graph; graph level: nest_doc of the '
+                  f'object graph with the flat branch of the generated root rule renders to the same text: {len(bad)} disagreements')
     if cases:
         ck.sample({'kv2_flat_case': {'unicode': cases[-1][1], 'spec': cases[-1][0]}})
     if bad:
@@ -759,7 +767,8 @@ def corr_kv2(ck: Ck) -> None:
                                         'kind': {1: 'model text differs from export_kv2', 2: 'model parse differs from parse_kv2',
                                                  3: 'generated document outside doc_ok',
                                                  4: 'model link (fix-up pass) differs from the parsed object graph',
-                                                 5: 'model parse of the re-formatted text differs from parse_kv2'}.get(code, code)}
+                                                 5: 'model parse of the re-formatted text differs from parse_kv2',
+                                                 6: 'graph level: nest_doc with every element a root (flat branch of the root rule) does not give the exported text / the flat document'}.get(code, code)}
 
 
 
